@@ -772,6 +772,11 @@ func (f *Frame) loopEnv(h *ssa.BasicBlock, st *State, phiOverride map[*ssa.Phi]V
 	g := f.g
 	env := g.newEnv(st, g.entry)
 	f.bindParams(env)
+	if f.spec != nil {
+		for _, l := range f.spec.Lets {
+			env.lets[l.Name] = l.Expr
+		}
+	}
 	// named locals (cells) and phis
 	for _, b := range f.fn.Blocks {
 		for _, ins := range b.Instrs {
@@ -986,7 +991,9 @@ func (f *Frame) havocNamed(m string, st *State, li *loopInfo, env *Env) {
 	g := f.g
 	if m == "*" {
 		for n := range g.w.world {
-			li.havocked[n] = true
+			if g.worldAvailable(n) {
+				li.havocked[n] = true
+			}
 		}
 		for n := range g.sorts.heapUsed {
 			li.havocked[n] = true
@@ -1144,7 +1151,9 @@ func (f *Frame) callEffects(c *ssa.CallCommon, li *loopInfo, depth int, argMap m
 	}
 	everything := func() {
 		for n := range g.w.world {
-			li.havocked[n] = true
+			if g.worldAvailable(n) {
+				li.havocked[n] = true
+			}
 		}
 		for n := range g.sorts.heapUsed {
 			li.havocked[n] = true
@@ -1255,6 +1264,12 @@ func (f *Frame) callEffects(c *ssa.CallCommon, li *loopInfo, depth int, argMap m
 		}
 	}
 	// unmodelled: pure externals modify nothing, others everything
+	if callee != nil {
+		switch callee.String() {
+		case "fmt.Sprintf", "fmt.Errorf", "fmt.Sprint", "strings.Join", "github.com/cosmos/cosmos-sdk/types/errors.Wrapf", "github.com/cosmos/cosmos-sdk/types/errors.Wrap":
+			return
+		}
+	}
 	pure := true
 	for _, a := range actuals {
 		switch a.Type().Underlying().(type) {
